@@ -220,6 +220,30 @@ def skip_rule(chk, repo, clause):
                     other.append(f'{"" if pol else "not "}{fmt(c)[:90]}')
                 if not missed and other:
                     bad.append('a field is skipped when ' + ' and '.join(other[:2]) + ', whether or not its window meets the output')
+    # ... and leaving one field out never ends the walk over the others: no `break` / `return` inside the loop over the fields
+    import ast as _ast
+    from ..interp import known_functions as _kf
+    early, n_loops = [], 0
+    scope = [f] + [g for g in repo.all_functions() if g.module.name == 'propagate' and g.key not in _kf()]
+    for g in scope:
+        for loop in [x for x in _ast.walk(g.node) if isinstance(x, _ast.For)]:
+            src = g.module.segment(loop.iter) or ''
+            has_dft = any(isinstance(x, _ast.Call) and (getattr(x.func, 'attr', None) == 'dft2' or getattr(x.func, 'id', None) == 'dft2')
+                          for x in _ast.walk(loop))
+            if not (has_dft or '.data' in src or 'fields' in src):
+                continue
+            n_loops += 1
+            inner_loops = [y for x in loop.body for y in _ast.walk(x) if isinstance(y, (_ast.For, _ast.While))]
+            inner = {id(z) for y in inner_loops for z in _ast.walk(y)}
+            for x in [y for b_ in loop.body for y in _ast.walk(b_)]:
+                if isinstance(x, _ast.Break) and id(x) not in inner:
+                    early.append(f'`break` at {g.loc(x)}')
+                elif isinstance(x, _ast.Return) and not isinstance(g.node, _ast.Lambda):
+                    early.append(f'`return` at {g.loc(x)}')
+    chk.ob(clause, 'D-guard', 'propagate.propagate_dft', 'a field that is left out does not end the loop over the remaining fields',
+           (not early) if n_loops else None,
+           ('; '.join(sorted(set(early))[:2]) + ': the fields listed after the skipped one are never propagated') if early
+           else f'{n_loops} loop(s) over the fields', f.loc())
     chk.ob(clause, 'D-guard', 'propagate.propagate_dft', 'a field is left out only when its window misses the output window',
            (not bad) if n else None,
            ('; '.join(sorted(set(bad))[:2]) + ': light that still lands inside the output is dropped') if bad else
